@@ -3,5 +3,32 @@ PROP = dict(
     title='Aggregate history is append-only, time-ordered and correctly retrievable',
     drivers=['TestC08History'],
     coq_modules=['Model.OracleRound', 'Model.AggHistory'], case_type='c08_case', check_fn='c08_check', classes_fn='c08_classes', shard=40,
-    rule='TBD', technique='TBD', level_text='TBD', level_note='TBD', assumptions=[], design_ref='5/C08',
+    rule='histories of 30 blocks on the full application fixture (real oracle, bridge, dispute, registry, reporter, bank, staking keepers and msg '
+         'servers, real oracle and bridge end blockers; block gaps 1-4000 ms; spot window 0-2): tips, reports (2 reporters), bridge withdrawals '
+         '(which publish an aggregate), ProposeDispute (warning/minor, fully or half funded, also naming the other reporter) and AddEvidence on '
+         'recent reports. AppendCase: the complete Aggregates store before and after every single operation and end blocker, with the reports named by '
+         'a funded dispute / accepted evidence. GetterCase (every third block): the store and, per query, probes of GetTimestampBefore/After, '
+         'GetCurrentAggregateReport, GetAggregateBefore, GetAggregateByTimestamp, GetAggregateByIndex at T in {0, 1, now+5, ts-1, ts, ts+1 of the two '
+         'oldest and two newest aggregates}. SnapshotCase: the attestation snapshots written by the bridge end blocker in that block, and (every '
+         'third block) by CreateSnapshot for up to three stored aggregates per query, with their Prev/NextReportTimestamp. non-trivial = store of '
+         '>= 2 (append, snapshot) / >= 3 (getter) aggregates; distinct by seed, history, block, operation',
+    technique='Coq theorems (characterisation of each lookup on a list sorted strictly by timestamp; insertion of a later-stamped aggregate appends to '
+              'its query\'s chronological list; invariant over all histories of round operations and flags by induction: sorted key-unique store, '
+              'sequence numbers 1..n, nothing removed or altered except flags raised by a named report) + differential execution of the real getters, '
+              'end blockers, dispute messages and bridge snapshots against the model inside Coq (vm_compute)',
+    level_text='Machine-checked for all histories of the model (tips, reports, end blockers, governance updates, dispute flags; block time strictly '
+               'increasing; no two rounds of one query closing in one block): the store stays sorted by (query, timestamp) and key-unique; per query the '
+               'sequence numbers along the chronological list are 1,2,3,... and timestamps strictly increase; every aggregate ever stored is still there, '
+               'identical except that its flag may have been raised, and a raised flag is explained by a flag operation naming the query, reporter and '
+               'block of the report that determined it. For every sorted store: current = the entry with the greatest timestamp; data before T = the '
+               'latest unflagged entry strictly before T; by index = i-th entry; by timestamp = the entry with that timestamp; timestamp before/after T = '
+               'greatest below / least above T (none iff there is none). The bridge snapshot\'s Prev/NextReportTimestamp are checked against these '
+               'lookups on the real bridge keeper (executable specification).',
+    level_note='Trusted: Coq kernel; the Go driver\'s dump of the Aggregates collection (query ids by their first 7 bytes, reporters by account '
+               'index). The snapshot clause is an executable specification evaluated on the real bridge keeper\'s AttestSnapshotDataMap (the bridge '
+               'calls the two timestamp getters; that call structure is exercised, not proved). The history theorem is about the model of '
+               'Model/OracleRound.v whose correspondence with the real keeper is C07\'s check; closing_distinct as in C07.',
+    assumptions=['block time strictly increases from block to block', 'the TRBBridge report window is at least one block (see C07)',
+                 'collections iterate in key order'],
+    design_ref='5/C08',
 )
